@@ -406,6 +406,71 @@ def r06n(ctx, run):
     c07.r07n(ctx, run)
 
 
+def r06o(ctx, run):
+    """belief vs use between lowering and parser: where HIR lowering answers a missing AST child with `unreachable!()` it states the belief 'the parser
+    always creates this child'.  For each such site (parent node type, accessor -> child node type) the parser must complete the child's NodeKind
+    unconditionally in the statement list that completes the parent's NodeKind - not inside an `if` / `match` / loop of its own: a truncated input
+    (`arr[;`, `arr[` at the end of the file) is a syntax error the parser reports, and lowering runs before diagnostics are printed."""
+    B = "hir/src/body.rs"
+    AST = "ast/src/lib.rs"
+    beliefs = []
+    for f in ctx.syn.fns_in(B):
+        if f.body is None or f.in_test:
+            continue
+        ptys = {n_: str(p_.get("ty", "")) for n_, p_ in zip(f.param_names(), f.params)}
+        for m in synq.matches_on(f.body):
+            e = m["e"]
+            if e.get("k") != "mcall" or e["r"].get("k") != "path" or e["r"]["p"] not in ptys or not ptys[e["r"]["p"]].startswith("ast::"):
+                continue
+            for a in m["arms"]:
+                bb = synq.strip_block(a["b"])
+                if canon(a["p"]) == "None" and bb.get("k") == "macro" and bb["name"].rsplit("::", 1)[-1] == "unreachable":
+                    beliefs.append((f, m["ln"], ptys[e["r"]["p"]].split("::", 1)[1], e["m"]))
+    if len(beliefs) < 2:
+        raise LookupError("`None => unreachable!()` on an AST child accessor in hir lowering: %d" % len(beliefs))
+    for f, ln, parent, accessor in beliefs:
+        acc = [g for g in ctx.syn.fns_in(AST) if g.qual == "%s::%s" % (parent, accessor)]
+        child = None
+        if len(acc) == 1:
+            mm = re.match(r"Option<(\w+)>", str(acc[0].node.get("ret") or "").replace(" ", ""))
+            child = mm.group(1) if mm else None
+        key = "child-always-made:%s.%s" % (parent, accessor)
+        if child is None:
+            run.finding(f.qual, key, f.file, ln, "cannot find what node %s::%s returns: the belief of %s (a missing child is unreachable) cannot be compared with the parser" % (parent, accessor, f.qual))
+            continue
+        # the parser statement list that completes the parent kind
+        found = False
+        for g in ctx.syn.fns_in("parser/src/grammar/expr.rs") + ctx.syn.fns_in("parser/src/grammar/stmt.rs") + ctx.syn.fns_in("parser/src/grammar.rs"):
+            if g.body is None or g.in_test:
+                continue
+            for blk in [x for x in walk(g.body) if x.get("k") == "block"]:
+                stmts = blk["s"]
+                idx = [i for i, st in enumerate(stmts) if ("NodeKind::%s)" % parent) in canon(st).replace(" ", "") and "complete(" in canon(st)
+                       and not any(x.get("k") == "block" and ("NodeKind::%s)" % parent) in canon(x).replace(" ", "") for x in walk(st) if x is not st and x is not blk)]
+                if not idx:
+                    continue
+                found = True
+                def unconditional(st):
+                    # the completion of the child kind, not below an if / match / loop / closure inside this statement
+                    def rec(n, cond):
+                        if isinstance(n, list):
+                            return any(rec(x, cond) for x in n)
+                        if not isinstance(n, dict):
+                            return False
+                        k = n.get("k")
+                        if k == "mcall" and n["m"] == "complete" and any(canon(a_).replace(" ", "") == "NodeKind::" + child for a_ in n["a"]) and not cond:
+                            return True
+                        c2 = cond or k in ("if", "match", "loop", "while", "for", "closure")
+                        return any(rec(v, c2) for kk, v in n.items() if kk not in ("k", "ln") and isinstance(v, (dict, list)))
+                    return rec(st, False)
+                made = any(unconditional(st) for st in stmts[:idx[0] + 1])
+                run.check(made, g.site(stmts[idx[0]]["ln"]), "%s: every %s node has its %s child (lowering's %s believes so)" % (g.qual, parent, child, f.qual), g.qual, key, g.file,
+                          stmts[idx[0]]["ln"], "%s completes a %s node without always completing a %s child in it (the child is only made under a condition), but %s answers a missing "
+                          "%s with unreachable!(): a truncated input such as `arr[;` panics the compiler in lowering instead of reporting the syntax error" % (g.qual, parent, child, f.qual, child))
+        if not found:
+            run.finding(f.qual, key, f.file, ln, "no parser statement list completes NodeKind::%s: the belief of %s cannot be compared with the parser" % (parent, f.qual))
+
+
 def r06f(ctx, run):
     """input_snippet is total: evaluated from its source for every shape of (file length, first line, span, lines after the span) that its
     arithmetic distinguishes and for every pair of columns a position can have (0 ..= line length: the position of the newline / end of
@@ -580,6 +645,7 @@ def rules(ctx):
         Rule("R06.l", "an argument passed in memory gets a whole number of eightbytes (Cranelift asserts it); fn_ty_to_abi evaluated (shared with C19 R19.e)", 10, r06l),
         Rule("R06.m", "weak-type replacement through a dereference keeps the pointer's mutability (re-inference panics otherwise; shared with C09 R09.m)", 6, r06m),
         Rule("R06.n", "weak-type replacement never gives an operator operands of a type it cannot be performed on without reporting it (shared with C07 R07.n)", 20, r06n),
+        Rule("R06.o", "where lowering answers a missing AST child with unreachable!(), the parser always makes that child (belief vs use across crates)", 2, r06o),
         Rule("R06.h", "variants of one enum get pairwise distinct discriminants (a duplicate panics Cranelift's Switch; shared with C11 R11.d)", 1, r06h),
         Rule("R06.g", "a data object is defined once: fresh name or memoised creation at every create_global_data site", 4, r06g),
         Rule("R06.f", "the snippet renderer is total: no unsigned subtraction below zero and no slice beyond a line, for every range shape and column (newline position included)", 1, r06f),
